@@ -4,6 +4,7 @@ import (
 	"bytes"
 	"context"
 	"fmt"
+	"git.defalsify.org/vise.git/resource"
 	"os"
 	"os/exec"
 	"path/filepath"
@@ -127,6 +128,27 @@ func runC19(c *core.Ctx) *core.Outcome {
 	// has (c19Stamp), so that anything the library remembers process-wide by content or by name starts cold in
 	// each of them. What a session served alone sees is then what it sees in a process of its own; what it sees
 	// next to others may only differ if something leaked. Transcripts are compared with the stamps blanked.
+	// one run in 8 (applications without static-load symbols): the sessions are served through ONE gettext
+	// resource of the library, loaded once from generated .po files - templates and labels are immutable
+	// application data - with the catalogues of only some languages registered up front
+	poRun := !langRun && t.Chance(1, 8)
+	for _, e := range a.Ext {
+		if e.Static != nil {
+			poRun = false
+		}
+	}
+	regMask := t.Int(4)
+	register := func(lg string) bool {
+		for i, x := range a.Langs {
+			if x == lg {
+				return regMask&(1<<uint(i%2)) != 0
+			}
+		}
+		return false
+	}
+	if poRun {
+		o.Probes["sessions_share_one_gettext_resource"]++
+	}
 	nsess := []int{2, 2, 3, 3, 4, 6, 8, 16}[t.Int(8)]
 	bias := t.Chance(1, 2)
 	var ss []*c19Sess
@@ -180,8 +202,11 @@ func runC19(c *core.Ctx) *core.Outcome {
 		defer shared.Unmount()
 	}
 	sc := sched.New()
+	var sharedRes resource.Resource
+	byID := map[string]*world.Sess{}
+	var cws []*world.World
+	var csess []*world.Sess
 	for _, s := range ss {
-		s := s
 		w := world.New(a2, cfg)
 		if useFs {
 			w.Disk = shared
@@ -190,6 +215,26 @@ func runC19(c *core.Ctx) *core.Outcome {
 			w.UseMem()
 		}
 		ws := w.NewSession(s.id, s.persisted)
+		byID[s.id] = ws
+		cws, csess = append(cws, w), append(csess, ws)
+	}
+	if poRun {
+		// built before any task exists: the tasks only ever read it
+		rs, dir, err := world.SharedPoResource(a2, byID, register)
+		if dir != "" {
+			defer os.RemoveAll(dir)
+		}
+		if err != nil {
+			panic("C19 harness: cannot build the shared gettext resource: " + err.Error())
+		}
+		sharedRes = rs
+		for _, w := range cws {
+			w.ResFor = func(*world.Sess) resource.Resource { return sharedRes }
+		}
+	}
+	for k, s := range ss {
+		s := s
+		w, ws := cws[k], csess[k]
 		sc.Go(func(yield func(string)) {
 			w.Rec.OnEvent = func(_ int, kind string) {
 				yield(kind)
@@ -257,6 +302,16 @@ func runC19(c *core.Ctx) *core.Outcome {
 			w.UseMem()
 		}
 		ws := w.NewSession(s.id, s.persisted)
+		if poRun {
+			rs, dir, err := world.SharedPoResource(a1, map[string]*world.Sess{s.id: ws}, register)
+			if dir != "" {
+				defer os.RemoveAll(dir)
+			}
+			if err != nil {
+				panic("C19 harness: cannot build the gettext resource: " + err.Error())
+			}
+			w.ResFor = func(*world.Sess) resource.Resource { return rs }
+		}
 		for i := range s.inputs {
 			st := ws.Request(s.inputs[i], s.fresh[i])
 			c19Blank(st, stampS)
